@@ -304,9 +304,66 @@ def make_bullet(rnd, box):
     return Ring("bullet", edges, (x0 + 3, y0 + 3, x1 - 3, cy))
 
 
+def make_horseshoe(rnd, box, thick=None):
+    """
+    A U-shaped curve (opening towards any of the four sides) whose centroid lies in its own bay,
+    outside the curve.  params['bay'] is the empty box of the concave side: a disjoint curve placed
+    there covers the centroid of the horseshoe without being inside it.  A thick horseshoe also
+    offers params['lining']: the points >= 3 away from its outline form a thin horseshoe that is
+    a hole of it whose centroid lies outside the shell altogether.
+    """
+    x0, y0, x1, y1 = box
+    w, h = x1 - x0, y1 - y0
+    if w < 24 or h < 24:
+        return make_rect(rnd, box)
+    q = rnd.randint(0, 3)
+    cw, ch = (w, h) if q % 2 == 0 else (h, w)  # canonical frame size
+    cb = (x0, y0, x0 + cw, y0 + ch)
+    thick = (rnd.random() < 0.4) if thick is None else thick
+    if thick and min(cw, ch) >= 40:
+        t = rnd.randint(9, max(9, min(cw // 4, ch // 4, 14)))
+    else:
+        thick = False
+        t = rnd.randint(2, 3)
+
+    def U(m, t):
+        # outline of the U whose outer box is cb shrunk by m (not at the open side), wall t
+        a0, b0, a1, b1 = cb[0] + m, cb[1] + m, cb[2] - m, cb[3] - m
+        return [(a0, b0), (a1, b0), (a1, b1), (a1 - t, b1), (a1 - t, b0 + t), (a0 + t, b0 + t), (a0 + t, b1), (a0, b1)]
+
+    def back(pts):
+        # canonical frame -> the frame of `box`; the canonical frame has the size (cw, ch)
+        out = []
+        for pt in pts:
+            u, v = pt[0] - x0, pt[1] - y0
+            if q == 0:
+                out.append((x0 + u, y0 + v))
+            elif q == 1:
+                out.append((x0 + (ch - v), y0 + u))
+            elif q == 2:
+                out.append((x0 + (cw - u), y0 + (ch - v)))
+            else:
+                out.append((x0 + v, y0 + (cw - u)))
+        return out
+
+    def back_box(b):
+        (a, c), (d, e) = back([(b[0], b[1]), (b[2], b[3])])
+        return (min(a, d), min(c, e), max(a, d), max(c, e))
+
+    pts = back(U(0, t))
+    bay = back_box((cb[0] + t + 3, cb[1] + t + 3, cb[2] - t - 3, cb[3] - 1))
+    params = {"bay": bay, "thick": bool(thick), "turn": q}
+    if thick:
+        params["lining"] = back(U(3, t - 6))
+    if not is_simple_polygon(pts):
+        return make_rect(rnd, box)
+    return _poly_ring("horseshoe", pts, (x0, y0, x0, y0), params)
+
+
 MAKERS = {
     "rect": make_rect, "convex": make_convex, "star": make_star,
     "rectilinear": make_rectilinear, "circle": make_circle, "bullet": make_bullet,
+    "horseshoe": make_horseshoe,
 }
 
 
@@ -441,6 +498,22 @@ def make_drawing(rnd, kinds=None, max_depth=3, size=None, max_rings=10):
         rings.append(ring)
         if parent is not None:
             rings[parent].children.append(idx)
+        if ring.kind == "horseshoe":
+            bay = ring.params["bay"]
+            if min(bay[2] - bay[0], bay[3] - bay[1]) >= 8 and rnd.random() < 0.8 and len(rings) < max_rings:
+                # a disjoint curve of the same depth in the concave side, over the horseshoe's centroid
+                k2 = rnd.choice([k for k in ("rect", "convex", "circle", "star") if k in kinds] or ["rect"])
+                sib = MAKERS[k2](rnd, bay)
+                sib.depth, sib.parent = depth, parent
+                sidx = len(rings)
+                rings.append(sib)
+                if parent is not None:
+                    rings[parent].children.append(sidx)
+            if ring.params.get("lining") and depth < max_depth and rnd.random() < 0.8 and len(rings) < max_rings:
+                lin = _poly_ring("horseshoe", ring.params["lining"], (0, 0, 0, 0), {"lining_of": idx})
+                lin.depth, lin.parent = depth + 1, idx
+                rings.append(lin)
+                ring.children.append(len(rings) - 1)
         inner = ring.inner
         iw, ih = inner[2] - inner[0], inner[3] - inner[1]
         if depth < max_depth and min(iw, ih) >= 10 and rnd.random() < 0.75 and len(rings) < max_rings:
